@@ -244,3 +244,81 @@ func (t *parseFmtTrace) validate(c *Ctx) (*parseFmtResult, error) {
 	}
 	return res, nil
 }
+
+// readCleanPairs extracts the (before, after) texts of the clean-up passes from a trace file.
+func readCleanPairs(path string, into map[[2]string]bool) {
+	f, err := os.Open(path)
+	if err != nil {
+		return
+	}
+	defer f.Close()
+	sc := bufio.NewScanner(f)
+	sc.Buffer(nil, 1<<26)
+	before := map[int]string{}
+	for sc.Scan() {
+		if !strings.Contains(sc.Text(), `"clean.`) {
+			continue
+		}
+		var ev struct {
+			Ev   string `json:"ev"`
+			Pid  int    `json:"pid"`
+			Text string `json:"text"`
+		}
+		if json.Unmarshal(sc.Bytes(), &ev) != nil {
+			continue
+		}
+		if ev.Ev == "clean.in" {
+			before[ev.Pid] = ev.Text
+		} else if ev.Ev == "clean.out" {
+			if b, ok := before[ev.Pid]; ok {
+				into[[2]string{b, ev.Text}] = true
+			}
+		}
+	}
+}
+
+// validateCleanPairs checks recorded clean-up executions against Cleanup!Pipeline.
+func (c *Ctx) validateCleanPairs(pairs map[[2]string]bool) (int, string, error) {
+	keys := make([][2]string, 0, len(pairs))
+	for k := range pairs {
+		printable := true
+		for _, r := range k[0] + k[1] {
+			if r < 32 || r > 126 {
+				printable = false
+			}
+		}
+		if printable {
+			keys = append(keys, k)
+		}
+	}
+	sort.Slice(keys, func(i, j int) bool { return keys[i][0]+"\x00"+keys[i][1] < keys[j][0]+"\x00"+keys[j][1] })
+	if len(keys) == 0 {
+		return 0, "", nil
+	}
+	var nd strings.Builder
+	for _, k := range keys {
+		b, _ := json.Marshal(map[string]string{"before": k[0], "after": k[1]})
+		nd.Write(b)
+		nd.WriteByte('\n')
+	}
+	accepted, consumed := false, 0
+	_, err := c.runTLC(TLCRun{Module: "Trace_Cleanup", Seed: c.Seed, Timeout: 30 * time.Minute, Workers: 1,
+		Invs: []string{"Report"}, ExtraFiles: map[string]string{"clean.ndjson": nd.String()}}, func(raw []byte) error {
+		var r struct {
+			Accepted bool `json:"accepted"`
+			Consumed int  `json:"consumed"`
+		}
+		if err := mustJSON(raw, &r); err != nil {
+			return err
+		}
+		accepted, consumed = r.Accepted, r.Consumed
+		return nil
+	})
+	if err != nil {
+		return 0, "", fmt.Errorf("clean-up trace validation: %v", err)
+	}
+	if !accepted && consumed >= 1 && consumed <= len(keys) {
+		return consumed, fmt.Sprintf("before %q after %q", keys[consumed-1][0], keys[consumed-1][1]), nil
+	}
+	return len(keys), "", nil
+}
